@@ -184,7 +184,7 @@ func (e *Encoder) writeValue(val reflect.Value, tagType byte) error {
 
 		for i := 0; i < val.Len(); i++ {
 			arrType, arrVal := getTagType(val.Index(i))
-			err := e.writeValue(arrVal, arrType)
+			err := e.marshal(arrVal, arrType)
 			if err != nil {
 				return err
 			}
@@ -345,7 +345,14 @@ func getTagType(v reflect.Value) (byte, reflect.Value) {
 	case reflect.Array, reflect.Slice:
 		var elemType byte
 		if v.Len() > 0 {
-			elemType, _ = getTagType(v.Index(0))
+			var elem reflect.Value
+			elemType, elem = getTagType(v.Index(0))
+			if elem.CanInterface() {
+				if _, ok := elem.Interface().(Marshaler); ok {
+					// elements that encode themselves always make a TagList
+					return TagList, v
+				}
+			}
 		} else {
 			elemType = getTagTypeByType(v.Type().Elem())
 		}
